@@ -133,14 +133,16 @@ def no_conflicts(streams):
 # block-boundary alignment, names with space, colon, backslash, backslash-digits, non-ASCII bytes)
 # ---------------------------------------------------------------------------------------------------------
 NAME_ATOMS = [[97], [98], [65], [48], [49], [52], [46], [58], [BS, 48, 52, 48], [BS, 49, 51, 52], [195, 169],
-              [BS, 51, 48, 51, BS, 50, 53, 49], [BS, 48, 55, 50], [BS], [233], [126]]
+              [BS, 51, 48, 51, BS, 50, 53, 49], [BS, 48, 55, 50], [BS], [126],
+              [BS, 51, 53, 49], [BS, 51, 55, 55]]     # \351, \377: bytes that are not UTF-8, written as escapes (valid text)
+RAW_NON_UTF8 = [233]      # a raw Latin-1 byte: the TEXT is then not UTF-8, i.e. outside the grammar (load result: any)
 
 
-def rand_component(rnd):
+def rand_component(rnd, atoms=NAME_ATOMS):
     while True:
         n = []
         for _ in range(rnd.randint(1, 4)):
-            n += rnd.choice(NAME_ATOMS)
+            n += rnd.choice(atoms)
         # no "\\\\" in the text, and never end on a lone backslash that could pair with what follows
         if any(n[i] == BS and n[i + 1] == BS for i in range(len(n) - 1)) or n[-1] == BS:
             continue
@@ -152,8 +154,11 @@ def rand_component(rnd):
 
 def rand_manifest(rnd):
     pool = [0] + [100 * k + rnd.randint(1, 20) for k in range(1, rnd.randint(2, 7) + 1)]
-    comps = [rand_component(rnd) for _ in range(4)]
-    files = [rand_component(rnd) for _ in range(5)]
+    # about 4% of the manifests get raw non-UTF-8 bytes in their names (whole execution then judged only for
+    # "no panic / no hang"); all others are valid text and judged in full
+    atoms = NAME_ATOMS + [RAW_NON_UTF8] if rnd.random() < 0.04 else NAME_ATOMS
+    comps = [rand_component(rnd, atoms) for _ in range(4)]
+    files = [rand_component(rnd, atoms) for _ in range(5)]
     while True:
         streams = []
         for _ in range(rnd.randint(1, 4)):
